@@ -109,7 +109,8 @@ Print Assumptions C14_spec_ok_model.
 Theorem C14_spec_verdicts_reading : forall c o,
   spec_verdicts c o = true <->
   ((o_iso o = true <-> iso (c_g1 c) (c_g2 c)) /\ (o_toiso o = true <-> iso (c_g1 c) (c_g2 c))
-   /\ (o_caneq o = true <-> iso (c_g1 c) (c_g2 c))).
+   /\ (o_caneq o = true <-> iso (c_g1 c) (c_g2 c))
+   /\ (o_alt1 o = true <-> iso (c_g1 c) (c_g2 c)) /\ (o_alt2 o = true <-> iso (c_g1 c) (c_g2 c))).
 Proof. exact spec_verdicts_reading. Qed.
 Print Assumptions C14_spec_verdicts_reading.
 
@@ -201,13 +202,3 @@ Theorem C14_history_reading : forall c o,
   h_spec_ok c o = true -> answers (map (dedup triple_eqb) (h_graphs c)) (h_ops c) o.
 Proof. exact h_spec_reading. Qed.
 Print Assumptions C14_history_reading.
-
-(* Finding FC14b (unsound automorphism pruning in _traces): isomorphic graphs
-   (4-cycle + self-loop, two labellings) reported non-isomorphic.  The model's
-   "false" on this literal witness is a recorded observation of rdflib, replayed
-   by the corpus case fc14b_c4_plus_loop.json. *)
-Theorem C14_incomplete_refuted :
-  exists c, kf c = 2%N /\ iso (c_g1 c) (c_g2 c) /\ o_iso (model_obs c) = false
-            /\ spec_ok c (model_obs c) = false.
-Proof. exact fc14b_refuted. Qed.
-Print Assumptions C14_incomplete_refuted.
